@@ -12,3 +12,4 @@ import Gleece.Properties.Serve
 #print axioms Gleece.Serve.missing_required_never_called
 #print axioms Gleece.Serve.parseIntegral_unsigned_in_range
 #print axioms Gleece.Serve.bindAll_some_each
+#print axioms Gleece.Serve.parseIntegral_signed_in_range
